@@ -17,10 +17,13 @@ TABLES = {
     "strict1": [("/a/{x}/", ["GET"])],
     # a fallback route for SOME methods only: what it answered for one method must not answer (or be counted for) another
     "fallback": [("/*", ["GET"]), ("/a/{x}", ["POST"])],
+    # UseEncodedPath: the router is given the ESCAPED path of the URL; "/a/%61" and "/a/a" are different requests (different
+    # values, different cache entries) although they decode to the same text
+    "encoded": [("/a/{x}", ["GET"]), ("/{x}/{y}", ["GET", "POST"])],
     "notallowed": [("/a/{x}", ["POST"]), ("/a/{x:dig}", ["PUT"]), ("/{x}/{y}", ["DELETE"]), ("/*", ALL9), ("/a/{x}/b", ["GET"])],
 }
 REQUESTS = [("GET", "/a/1"), ("GET", "/a/a"), ("POST", "/a/1"), ("HEAD", "/a/1"), ("GET", "/1/a"), ("DELETE", "/a/a"),
-            ("GET", "/a"), ("OPTIONS", "/a/1"), ("HEAD", "/a"), ("PUT", "/a/1"), ("HEAD", "/a/a"), ("GET", "/a/1/"), ("POST", "/1/a")]
+            ("GET", "/a"), ("OPTIONS", "/a/1"), ("HEAD", "/a"), ("PUT", "/a/1"), ("HEAD", "/a/a"), ("GET", "/a/1/"), ("POST", "/1/a"), ("GET", "/a/%61")]
 DEV = dict(D_IrregularOverwrite=False, D_QuotedStart=False, D_VarlessOptionalIrregular=False, D_EmptyCheckBeforeTrim=False,
            D_InterceptRaw=False, D_FallbackBeforeHead=False, D_AllowProbeHeadFallback=False,
            D_CacheKeyFirstSegment=False, D_CacheKeyNoMethod=False, D_CacheSkipsStable=False,
